@@ -294,6 +294,22 @@ func (it *amapIter) next() tuple {
 // sameValueIdentity: structural identity without solver (hash-consed terms compare by pointer).
 func sameValueIdentity(a, b value) bool {
 	switch a := a.(type) {
+	case []value:
+		// slices: nil == nil, otherwise the same view of the same backing array
+		b, ok := b.([]value)
+		if !ok {
+			return false
+		}
+		if a == nil || b == nil {
+			return a == nil && b == nil
+		}
+		if len(a) != len(b) || cap(a) != cap(b) {
+			return false
+		}
+		if cap(a) == 0 {
+			return true
+		}
+		return &a[:1][0] == &b[:1][0]
 	case sym:
 		b, ok := b.(sym)
 		return ok && a.t == b.t
